@@ -543,16 +543,133 @@ ENGINES['C20'] = c20_engine
 
 def c11_engine(prop, tier, replay, t0):
     vlib.build_harness()
+    if replay and open(replay).readline().startswith('{"e":"call"'):
+        d0 = vlib.scratch('c11r.')
+        tr = os.path.join(d0, 'trace.ndjson')
+        vlib.harness(['exec', '-plan', 'file:0', '-cases', replay, '-out', tr])
+        vs, _ = vlib.validate_traces('Trace_Exec', tr, vlib.exec_consts(soft='any'))
+        bad = [v for v in vs if v['prop'] == 'C11']
+        for v in bad[:3]:
+            print('VIOLATION property=C11 replay=%s' % replay)
+        return 1 if bad else 0
     d = vlib.scratch('c11.')
     lang = os.path.join(d, 'lang.ndjson')
     vlib.harness(['msgtab', '-exportlang', lang])   # the shipped language maps of the real code, as data for TLC
     verdicts, st, g, res, trace, nrows = table_run('Tab_C11', 'msgtab', extra_consts={'LangFile': '"lang.ndjson"'}, files={'lang.ndjson': lang})
-    return report_table(prop, tier, t0, ['C11'], verdicts, st, g, res, trace, nrows, 'Tab_C11',
-                        'rows = catalogue entry (every built-in test of every schema type, required / not_nil / coerce, invalid_json / invalid_form, custom schema) x test-level option (none, Message, MessageFunc) '
-                        'x WithIssueFormatter (off, on) x global formatter (default, i18n with context language es, i18n without context language, i18n with an unknown language); each row is triggered on the real '
-                        'library; code, type, parameter keys, value, message and the source of the message are compared with the catalogue; the shipped en/es maps are imported as data and checked by TLC',
-                        ['formatters are sentinels that sign their output; the i18n maps are the real shipped maps with a language prefix added', 'wording is not judged'],
-                        replay=bool(replay), known=vlib.load_known())
+    # the same facts at every position and in both modes: issues of random nested schemas, validated by Trace_Exec
+    tr2 = os.path.join(d, 'exec.ndjson')
+    st2 = vlib.harness(['exec', '-plan', 'random:%d,callbacks:%d' % ((6000, 2000) if tier == 'thorough' else (500, 200)), '-seed', str(vlib.seed()), '-out', tr2])
+    v2, tv2 = vlib.validate_traces('Trace_Exec', tr2, vlib.exec_consts(soft='any'))
+    mine2 = [v for v in v2 if v['prop'] == 'C11']
+    rc2 = 0
+    if mine2:
+        os.makedirs(vlib.REPLAY, exist_ok=True)
+        seen = set()
+        for v in mine2:
+            if v['id'] in seen or len(seen) >= 5:
+                continue
+            seen.add(v['id'])
+            path = '%s/C11-%s.ndjson' % (vlib.REPLAY, v['id'].replace('/', '_'))
+            with open(path, 'w') as f:
+                f.writelines(vlib.extract_trace(tr2, v['id']))
+            print('VIOLATION property=C11 replay=%s' % path)
+            log('  verdict: %s line %s: %s' % (v['kind'], v['line'], json.dumps(v['detail'])[:500]))
+        rc2 = 1
+    rc = report_table(prop, tier, t0, ['C11'], verdicts, st, g, res, trace, nrows, 'Tab_C11',
+                      'rows = catalogue entry (every built-in test of every schema type, required / not_nil / coerce, invalid_json / invalid_form, custom schema) x test-level option (none, Message, MessageFunc) '
+                      'x WithIssueFormatter (off, on) x global formatter (default, i18n with context language es, i18n without context language, i18n with an unknown language); each row is triggered on the real '
+                      'library; code, type, parameter keys, value, message and the source of the message are compared with the catalogue; the shipped en/es maps are imported as data and checked by TLC. '
+                      'Additionally every issue of seeded random nested schemas (both modes, all positions) must carry the type of its node and a non-empty placeholder-free message (Trace_Exec)',
+                      ['formatters are sentinels that sign their output; the i18n maps are the real shipped maps with a language prefix added', 'wording is not judged'],
+                      replay=bool(replay), known=vlib.load_known())
+    ev = json.load(open('%s/C11.json' % vlib.EVID))
+    ev['coverage']['nested_positions'] = dict(traces=st2['traces'], cases=st2['cases'], tlc_states=tv2['distinct'], samples=st2['samples'][:3])
+    ev['coverage']['traces_validated_against_impl'] += st2['traces']
+    ev['violations'] += len(mine2)
+    json.dump(ev, open('%s/C11.json' % vlib.EVID, 'w'), indent=1, sort_keys=True)
+    return 1 if (rc or rc2) else 0
 
 
 ENGINES['C11'] = c11_engine
+
+
+# ---------------------------------------------------------------------------------------------
+# ZogChain engine: C17
+# ---------------------------------------------------------------------------------------------
+CHAIN_SW = ['SwNotConsumed', 'SwCodeFlipBeforeOpts', 'SwOptsOnCopy', 'SwSettersOverwrite']
+
+
+def chain_consts(ty, maxlen, level, extra=None):
+    c = {'MaxLen': str(maxlen), 'OptLevel': '"%s"' % level, 'ChainTy': '"%s"' % ty, 'CasesFile': '"cases.ndjson"'}
+    for s in CHAIN_SW:
+        c[s] = 'TRUE'
+    if extra:
+        c.update(extra)
+    return c
+
+
+def chain_engine(prop, tier, replay, t0):
+    vlib.build_harness()
+    d = vlib.scratch('chain.')
+    trace = os.path.join(d, 'trace.ndjson')
+    thorough = tier == 'thorough'
+    level = 'all' if thorough else 'few'
+    states = trans = 0
+    cases = os.path.join(d, 'chains.ndjson')
+    nchains = 0
+    if replay:
+        st = vlib.harness(['exec', '-plan', 'file:0', '-cases', replay, '-out', trace])
+    else:
+        with open(cases, 'w') as out:
+            for ty in ('str', 'int'):
+                # (A) every chain the type system admits: the code-shaped builder machine equals the declarative reading
+                mc = vlib.run_tlc('ZogChain', vlib.cfg_text(chain_consts(ty, 3, level), init='ChainInit', next_='ChainNext', invariants=['BuilderMeansWhatItSays']), workers=16, timeout=3600)
+                vlib.tlc_ok(mc, 'ZogChain/' + ty)
+                states += mc['distinct']
+                trans += mc['generated']
+                # (B) every complete chain, with its declarative reading as the case's schema
+                g = vlib.run_tlc('ZogChain', vlib.cfg_text(chain_consts(ty, 3, level), init='GenInit', next_='GenNext'), workers=1, timeout=3600)
+                vlib.tlc_ok(g, 'ZogChain/gen/' + ty)
+                for line in open(os.path.join(g['dir'], 'cases.ndjson')):
+                    out.write(line.replace('"id":"ch', '"id":"%s-ch' % ty, 1))
+                    nchains += 1
+        plan = 'chains:0' if thorough else 'chains:2500'
+        # shared schema objects used at several places of a larger schema (the second half of C17)
+        plan += ',shared:%d' % (3000 if thorough else 400)
+        st = vlib.harness(['exec', '-plan', plan, '-cases', cases, '-seed', str(vlib.seed()), '-out', trace])
+    verdicts, tv = vlib.validate_traces('Trace_Exec', trace, vlib.exec_consts(soft='any'))
+    viol = [v for v in verdicts if v['prop'] == 'C17']
+    others = {}
+    for v in verdicts:
+        if v['prop'] != 'C17':
+            others[v['prop']] = others.get(v['prop'], 0) + 1
+    rc = 0
+    if viol:
+        os.makedirs(vlib.REPLAY, exist_ok=True)
+        seen = set()
+        for v in viol:
+            if v['id'] in seen or len(seen) >= 5:
+                continue
+            seen.add(v['id'])
+            path = '%s/%s-%s.ndjson' % (vlib.REPLAY, prop, v['id'].replace('/', '_'))
+            with open(path, 'w') as f:
+                f.writelines(vlib.extract_trace(trace, v['id']))
+            print('VIOLATION property=%s replay=%s' % (prop, path))
+            log('  verdict: %s line %s: %s' % (v['kind'], v['line'], json.dumps(v['detail'])[:600]))
+        rc = 1
+    if not replay:
+        cov = dict(states=states, transitions=trans, traces_validated_against_impl=st['traces'], trace_lines=st['lines'], chains_emitted=nchains,
+                   evaluations=st['cases'], distinct_nontrivial=st['distinct_nontrivial'],
+                   rule='every chain of <= 3 builder calls the Go type system admits (Not, built-in tests with every option combination of the tier, TestFunc, Required(msg)/Optional, Default, Catch) for a string and an int schema, '
+                        'executed on the real builder API and probed with absent and present inputs in Parse and Validate; plus random schemas in which one schema OBJECT is placed at several positions; '
+                        'distinct by (chain/schema, input, mode)',
+                   samples=st['samples'], per_family=st['per_family'], mc_config='ZogChain MaxLen=3 OptLevel=%s ChainTy in {str,int} invariant BuilderMeansWhatItSays' % level,
+                   tlc_trace_states=tv['distinct'], verdicts_owned_by_other_properties=others, exhaustive=thorough)
+        vlib.write_evidence(prop, tier, 'model_checking', cov,
+                            ['the declarative reading NodeOf(chain) is the specification of C17; everything after construction is validated like any other case (Trace_Exec)',
+                             'chains are those the Go type system admits: after Not() only the negatable tests can be called'],
+                            time.time() - t0, len(viol))
+    return rc
+
+
+ENGINES['C17'] = chain_engine
